@@ -204,6 +204,10 @@ fn connect_client(id: usize, addr: SocketAddr, behaviour: &'static str, after: u
 
 fn max_seq(buf: &Arc<Mutex<Vec<u8>>>, emitter: &str) -> (i64, usize) {
     let b = buf.lock().unwrap().clone();
+    if b.len() > 4_000_000 {
+        // large captures are judged once at the end; pacing uses the cheap tail scan below
+        return (max_seq_tail(&b, emitter), 1_000_000);
+    }
     match deframe(&b) {
         Ok((fr, _)) => {
             let mut m = -1i64;
@@ -220,7 +224,36 @@ fn max_seq(buf: &Arc<Mutex<Vec<u8>>>, emitter: &str) -> (i64, usize) {
     }
 }
 
+/// Cheap search for the highest `seq` label of an emitter in the last part of a capture (frames may be torn at the cut).
+fn max_seq_tail(b: &[u8], emitter: &str) -> i64 {
+    let _ = emitter;
+    let tail = &b[b.len().saturating_sub(200_000)..];
+    let mut best = -1i64;
+    let pat = b"\x0a\x03seq\x12";
+    let mut i = 0;
+    while i + pat.len() + 1 < tail.len() {
+        if &tail[i..i + pat.len()] == pat {
+            let l = tail[i + pat.len()] as usize;
+            if i + pat.len() + 1 + l <= tail.len() {
+                if let Ok(s) = std::str::from_utf8(&tail[i + pat.len() + 1..i + pat.len() + 1 + l]) {
+                    if let Ok(v) = s.parse::<i64>() {
+                        best = best.max(v);
+                    }
+                }
+            }
+        }
+        i += 1;
+    }
+    best
+}
+
 pub fn run(a: &Args) -> Option<Report> {
+    if a.leg == "stall" {
+        return Some(run_stall(a));
+    }
+    if a.leg == "wake" {
+        return Some(run_wake(a));
+    }
     if a.leg != "native" {
         return None;
     }
@@ -537,4 +570,310 @@ pub fn run(a: &Args) -> Option<Report> {
         drop(rec);
     }
     Some(rep)
+}
+
+/// A client that stops reading while megabytes are sent to it (its socket buffers fill, writes become partial and
+/// then block), then resumes: whatever it receives must still be whole frames; a second client that keeps reading
+/// must receive everything.
+fn run_stall(a: &Args) -> Report {
+    let mut rep = Report::new("C11", &a.leg, a.seed);
+    rt::quiet_panics();
+    let mut r = Rng::new(a.shard_seed());
+    let scenarios = a.budget(6, 300);
+    for sc in 0..scenarios {
+        let buffer_size: Option<usize> = *r.pick(&[None, Some(64), Some(1024)]);
+        let port = {
+            let l = TcpListener::bind("127.0.0.1:0").unwrap();
+            l.local_addr().unwrap().port()
+        };
+        let addr: SocketAddr = format!("127.0.0.1:{}", port).parse().unwrap();
+        let rec = match TcpBuilder::new().listen_address(addr).buffer_size(buffer_size).build() {
+            Ok(r) => Arc::new(r),
+            Err(e) => {
+                rep.inconclusive(format!("build failed: {:?}", e));
+                continue;
+            }
+        };
+        rec.describe_counter(KeyName::from("m"), None, SharedString::from("x"));
+        std::thread::sleep(Duration::from_millis(20));
+        let reader = connect_client(0, addr, "reader", 0);
+        let staller = connect_client(1, addr, "heavy-staller", 0);
+        let (mut reader, mut staller) = match (reader, staller) {
+            (Some(a1), Some(b1)) => (a1, b1),
+            _ => {
+                rep.inconclusive("could not connect");
+                continue;
+            }
+        };
+        let t = Instant::now();
+        while t.elapsed() < Duration::from_secs(5) && (max_seq(&reader.buf, "0").1 < 1 || max_seq(&staller.buf, "0").1 < 1) {
+            std::thread::sleep(Duration::from_millis(2));
+        }
+        staller.reading.store(false, Ordering::SeqCst);
+        std::thread::sleep(Duration::from_millis(10));
+        // emit frames with a large label so that the stalled client's socket fills quickly
+        let pad_len = *r.pick(&[16usize << 10, 64 << 10, 300 << 10]);
+        let pad: String = std::iter::repeat('p').take(pad_len).collect();
+        let total = ((12usize << 20) / pad_len).max(30).min(600) as i64;
+        let per_round = buffer_size.map(|b| (b / 2).max(1)).unwrap_or(30).min(30) as i64;
+        let mut sent = -1i64;
+        let mut stalled_out = false;
+        while sent + 1 < total {
+            let n = per_round.min(total - 1 - sent);
+            for k in 0..n {
+                let seq = sent + 1 + k;
+                let key = Key::from_parts("m", vec![Label::new("emitter", "0"), Label::new("seq", seq.to_string()), Label::new("pad", pad.clone())]);
+                rec.register_counter(&key, &MD).increment(seq as u64);
+            }
+            sent += n;
+            let t2 = Instant::now();
+            while max_seq(&reader.buf, "0").0 < sent {
+                if t2.elapsed() > Duration::from_secs(10) {
+                    stalled_out = true;
+                    break;
+                }
+                std::thread::sleep(Duration::from_millis(1));
+            }
+            if stalled_out {
+                break;
+            }
+        }
+        // the stalled client resumes; a few small frames flush whatever is pending for it
+        staller.reading.store(true, Ordering::SeqCst);
+        for k in 0..5 {
+            let key = Key::from_parts("m", vec![Label::new("emitter", "0"), Label::new("seq", (total + k).to_string()), Label::new("pad", "tail")]);
+            rec.register_counter(&key, &MD).increment(1);
+            std::thread::sleep(Duration::from_millis(30));
+        }
+        std::thread::sleep(Duration::from_millis(200));
+        let desc = jo! {"buffer_size" => format!("{:?}", buffer_size), "label_bytes" => pad_len, "frames_sent_while_stalled" => total};
+        let mut hcase = mix(sc, pad_len as u64);
+        for c in [&mut reader, &mut staller] {
+            c.stop.store(true, Ordering::SeqCst);
+            if let Some(s) = c.stream.take() {
+                let _ = s.shutdown(Shutdown::Both);
+            }
+            if let Some(h) = c.reader.take() {
+                let _ = h.join();
+            }
+            let b = c.buf.lock().unwrap().clone();
+            hcase = mix(hcase, b.len() as u64);
+            match deframe(&b) {
+                Err(e) => {
+                    rep.violation(
+                        if c.behaviour == "heavy-staller" { "C11:torn-or-corrupt-frame:client-stalled-with-full-socket" } else { "C11:torn-or-corrupt-frame" },
+                        jo! {"what" => "a client's byte stream is not a concatenation of whole Event frames", "error" => e, "client" => c.behaviour, "bytes_received" => b.len(), "scenario" => desc.clone()},
+                    );
+                }
+                Ok((frames, _trailing)) => {
+                    let mut last = -1i64;
+                    for f in &frames {
+                        if let Frame::Metric { labels, bits, op, .. } = f {
+                            let seq: i64 = labels.get("seq").and_then(|x| x.parse().ok()).unwrap_or(-1);
+                            let pad_ok = labels.get("pad").map(|p| p.len() == pad_len || p == "tail").unwrap_or(false);
+                            if !pad_ok || *op != 4 || (seq < total && *bits != seq as u64) {
+                                rep.violation("C11:frame-content-altered", jo! {"what" => "a frame's content differs from what was emitted", "seq" => seq, "client" => c.behaviour, "scenario" => desc.clone()});
+                                break;
+                            }
+                            if seq <= last {
+                                rep.violation(if seq == last { "C11:duplicated-frame" } else { "C11:emission-order-violated" }, jo! {"what" => "duplicate or out-of-order frame", "seq" => seq, "after" => last, "client" => c.behaviour, "scenario" => desc.clone()});
+                                break;
+                            }
+                            if c.behaviour == "reader" && seq != last + 1 && !stalled_out {
+                                rep.violation("C11:gap-in-reading-client-stream", jo! {"what" => "the reading client missed frames while another client was stalled", "missing_from" => last + 1, "next_received" => seq, "scenario" => desc.clone()});
+                                break;
+                            }
+                            last = seq;
+                        }
+                    }
+                    rep.count(&format!("frames_received:{}", c.behaviour), frames.len() as u64);
+                }
+            }
+        }
+        if stalled_out {
+            rep.inconclusive("reading client did not acknowledge within the watchdog");
+        }
+        rep.case(hcase, true);
+        if rep.want_sample() {
+            rep.sample(jo! {"scenario" => desc, "reader_bytes" => reader.buf.lock().unwrap().len(), "stalled_client_bytes" => staller.buf.lock().unwrap().len()});
+        }
+    }
+    rep
+}
+
+/// Count whole frames in a capture incrementally (skips by the varint length prefix, no decoding).
+struct FrameCounter {
+    off: usize,
+    count: usize,
+}
+impl FrameCounter {
+    fn advance(&mut self, buf: &Arc<Mutex<Vec<u8>>>) -> usize {
+        let b = buf.lock().unwrap();
+        loop {
+            let mut j = self.off;
+            match varint(&b, &mut j) {
+                Some(n) if j + n as usize <= b.len() => {
+                    self.off = j + n as usize;
+                    self.count += 1;
+                }
+                _ => break,
+            }
+        }
+        self.count
+    }
+}
+
+/// Back-to-back emissions from several threads racing the transport's "queue drained, go back to sleep" decision.
+/// Bounded progress: once the emitters are quiet the reading client must receive everything; if nothing at all arrives
+/// for 3 s and everything then arrives right after an unrelated wake-up (a describe call), the metrics had been sitting
+/// in the exporter without anybody waking the transport.
+fn run_wake(a: &Args) -> Report {
+    let mut rep = Report::new("C11", &a.leg, a.seed);
+    rt::quiet_panics();
+    let mut r = Rng::new(a.shard_seed());
+    let scenarios = a.budget(2, 40);
+    for sc in 0..scenarios {
+        let buffer_size: Option<usize> = *r.pick(&[None, Some(1024)]);
+        let port = {
+            let l = TcpListener::bind("127.0.0.1:0").unwrap();
+            l.local_addr().unwrap().port()
+        };
+        let addr: SocketAddr = format!("127.0.0.1:{}", port).parse().unwrap();
+        let rec = match TcpBuilder::new().listen_address(addr).buffer_size(buffer_size).build() {
+            Ok(r) => Arc::new(r),
+            Err(e) => {
+                rep.inconclusive(format!("build failed: {:?}", e));
+                continue;
+            }
+        };
+        rec.describe_counter(KeyName::from("m"), None, SharedString::from("x"));
+        std::thread::sleep(Duration::from_millis(20));
+        let mut reader = match connect_client(0, addr, "reader", 0) {
+            Some(c) => c,
+            None => {
+                rep.inconclusive("could not connect");
+                continue;
+            }
+        };
+        let mut fc = FrameCounter { off: 0, count: 0 };
+        let t = Instant::now();
+        while t.elapsed() < Duration::from_secs(5) && fc.advance(&reader.buf) < 1 {
+            std::thread::sleep(Duration::from_millis(1));
+        }
+        let nemit = 2 + r.usize(2);
+        let burst = 20usize;
+        let rounds = if a.thorough() { 20_000 } else { 5_000 };
+        let mut expected = 1usize; // metadata frame
+        let mut seqs = vec![0i64; nemit];
+        let mut verdict: Option<(&str, J)> = None;
+        let barrier = Arc::new(std::sync::Barrier::new(nemit + 1));
+        let stop = Arc::new(AtomicBool::new(false));
+        let mut ths = Vec::new();
+        for e in 0..nemit {
+            let (rec, barrier, stop) = (rec.clone(), barrier.clone(), stop.clone());
+            ths.push(std::thread::spawn(move || {
+                let mut seq = 0i64;
+                loop {
+                    barrier.wait();
+                    if stop.load(Ordering::SeqCst) {
+                        return;
+                    }
+                    for _ in 0..burst {
+                        let key = Key::from_parts("m", vec![Label::new("emitter", e.to_string()), Label::new("seq", seq.to_string())]);
+                        rec.register_counter(&key, &MD).increment(seq as u64);
+                        seq += 1;
+                    }
+                    barrier.wait();
+                }
+            }));
+        }
+        let mut done_rounds = 0;
+        for round in 0..rounds {
+            barrier.wait(); // start burst
+            barrier.wait(); // all emitters quiet
+            expected += nemit * burst;
+            for s_ in seqs.iter_mut() {
+                *s_ += burst as i64;
+            }
+            done_rounds = round + 1;
+            let t2 = Instant::now();
+            let mut last_progress = (fc.advance(&reader.buf), Instant::now());
+            let mut stuck = false;
+            while fc.advance(&reader.buf) < expected {
+                let now = fc.count;
+                if now != last_progress.0 {
+                    last_progress = (now, Instant::now());
+                }
+                if last_progress.1.elapsed() > Duration::from_secs(3) {
+                    stuck = true;
+                    break;
+                }
+                if t2.elapsed() > Duration::from_secs(30) {
+                    break;
+                }
+                std::thread::yield_now();
+            }
+            if stuck {
+                let missing = expected - fc.count;
+                // unrelated wake-up
+                rec.describe_gauge(KeyName::from("unrelated"), None, SharedString::from("wake"));
+                let t3 = Instant::now();
+                while t3.elapsed() < Duration::from_secs(2) && fc.advance(&reader.buf) < expected {
+                    std::thread::sleep(Duration::from_millis(1));
+                }
+                if fc.count >= expected {
+                    verdict = Some(("C11:delivery-stalled-until-unrelated-wakeup", jo! {"what" => "with the emitters quiet, metrics stayed undelivered to a reading client for 3 s with no progress at all and arrived immediately after an unrelated wake-up (describe call): they were queued in the exporter without the transport being woken", "round" => round, "frames_missing_during_stall" => missing, "buffer_size" => format!("{:?}", buffer_size), "emitters" => nemit}));
+                } else {
+                    rep.inconclusive("delivery stalled and did not resume after a wake-up within the watchdog");
+                }
+                break;
+            }
+            if fc.count < expected {
+                rep.inconclusive("round not acknowledged within 30 s although frames kept arriving");
+                break;
+            }
+        }
+        stop.store(true, Ordering::SeqCst);
+        barrier.wait();
+        for t in ths {
+            let _ = t.join();
+        }
+        reader.stop.store(true, Ordering::SeqCst);
+        if let Some(s_) = reader.stream.take() {
+            let _ = s_.shutdown(Shutdown::Both);
+        }
+        if let Some(h) = reader.reader.take() {
+            let _ = h.join();
+        }
+        let b = reader.buf.lock().unwrap().clone();
+        rep.case(mix(sc, b.len() as u64), true);
+        rep.case(mix(sc + 1000, done_rounds as u64), true);
+        rep.count("rounds_of_back_to_back_bursts", done_rounds as u64);
+        if let Some((sig, d)) = verdict {
+            rep.violation(sig, d);
+        }
+        match deframe(&b) {
+            Err(e) => rep.violation("C11:torn-or-corrupt-frame", jo! {"what" => "stream is not whole frames", "error" => e}),
+            Ok((frames, _)) => {
+                let mut last: HashMap<String, i64> = HashMap::new();
+                for f in &frames {
+                    if let Frame::Metric { labels, .. } = f {
+                        let e = labels.get("emitter").cloned().unwrap_or_default();
+                        let seq: i64 = labels.get("seq").and_then(|x| x.parse().ok()).unwrap_or(-1);
+                        let p = last.get(&e).cloned().unwrap_or(-1);
+                        if seq != p + 1 {
+                            rep.violation(if seq <= p { "C11:emission-order-violated" } else { "C11:gap-in-reading-client-stream" }, jo! {"what" => "per-emitter sequence broken for a reading client under back-to-back bursts", "emitter" => e.clone(), "expected" => p + 1, "got" => seq});
+                            break;
+                        }
+                        last.insert(e, seq);
+                    }
+                }
+                rep.count("frames_received", frames.len() as u64);
+            }
+        }
+        if rep.want_sample() {
+            rep.sample(jo! {"wake_race" => true, "buffer_size" => format!("{:?}", buffer_size), "emitters" => nemit, "rounds" => done_rounds, "burst" => burst, "bytes" => b.len()});
+        }
+    }
+    rep
 }
